@@ -18,6 +18,9 @@ Definition width (n h : nat) : nat := ((n + 2 ^ h - 1) / 2 ^ h)%nat.
 (* self.max_depth = (self.total - 1).bit_length() *)
 Definition max_depth (total : Z) : nat := Z.to_nat (bit_length (total - 1)).
 
+(* for h in hashes: if len(h) != 32: raise ValueError *)
+Definition all32 (hs : list bytes) : bool := forallb (fun h => (length h =? 32)%nat) hs.
+
 Section MB.
 Variable hash256 : bytes -> bytes.
 
@@ -135,10 +138,13 @@ Definition leftover_ok (bits : list Z) (hs : list bytes) : bool :=
 Definition populate_fuel (total : Z) : nat :=
   (3 * (2 * Z.to_nat total + max_depth total + 1) + 1)%nat.
 
-(* MerkleTree(total).populate_tree(flag_bits, hashes) -> (root(), proved_txs) *)
+(* MerkleTree(total).populate_tree(flag_bits, hashes) -> (root(), proved_txs).
+   Since 5e35f6e the method first checks that EVERY given hash is 32 bytes long (ValueError
+   otherwise), before the loop. *)
 Definition populate_tree (total : Z) (bits : list Z) (hs : list bytes)
   : result (bytes * list bytes) :=
   t <- mt_init total ;;
+  if negb (all32 hs) then Err else
   '(t', bits', hs') <- populate_loop (populate_fuel total) t bits hs ;;
   if leftover_ok bits' hs' then
     root <- get_node (mt_nodes t') 0 0 ;;
@@ -177,6 +183,7 @@ Fixpoint traverse (n : nat) (h pos : nat) (bits : list Z) (hs : list bytes)
 Definition populate_tree_rec (total : Z) (bits : list Z) (hs : list bytes)
   : result (bytes * list bytes) :=
   if total <? 1 then Err
+  else if negb (all32 hs) then Err
   else
     '(root, proved, bits', hs') <- traverse (Z.to_nat total) (max_depth total) 0 bits hs ;;
     if leftover_ok bits' hs' then Ok (root, proved) else Err.
